@@ -43,6 +43,23 @@ EXTRA_DATES = [(1000, 1, 1), (1582, 10, 15), (1899, 12, 31), (1900, 2, 28),
 
 
 def make_fileset(tpl, info_via, handler_plan, late=None):
+    fileset = _make_fileset(tpl, info_via, handler_plan, late)
+    if late is not None and G.end_style(tpl) == "none":
+        # history: the name is parsed (and its information cached) under
+        # another time_coverage before the final one is assigned
+        cov = tpl["coverage_s"]
+        fileset.time_coverage = dt.timedelta(seconds=5400) if cov is None \
+            else None
+        try:
+            fileset.get_info(late)
+        except ValueError:
+            pass
+        fileset.time_coverage = None if cov is None \
+            else dt.timedelta(seconds=cov)
+    return fileset
+
+
+def _make_fileset(tpl, info_via, handler_plan, late=None):
     from typhon.files import FileHandler, FileInfo, FileSet
     cov = tpl["coverage_s"]
     kwargs = {}
@@ -50,7 +67,7 @@ def make_fileset(tpl, info_via, handler_plan, late=None):
     if late is not None and arg:
         # history: the fileset parses a name with the default placeholders
         # first, the user's regexes / value lists are set afterwards
-        fileset = make_fileset(dict(tpl, user={
+        fileset = _make_fileset(dict(tpl, user={
             k: {"kind": "default", "regex": None, "values": v["values"]}
             for k, v in tpl["user"].items()}), info_via, handler_plan)
         try:
@@ -110,6 +127,8 @@ def check_names(case, ctx):
                                expected_name if per.get("late") else None)
         if per.get("late") and tpl["user"]:
             ctx.label("placeholders-set-late")
+        if per.get("late") and style == "none":
+            ctx.label("coverage-assigned-late")
         where = lambda: "template=%r s=%s e=%s attrs=%r coverage=%r via=%s " \
             "handler=%r" % (fileset.path, s, e, attrs, cov, info_via, plan)
         times_arg = s if (s == e and per["single"]) else (s, e)
@@ -390,7 +409,8 @@ def name_cases(draw):
                                      "junk-after", "junk-before",
                                      "dot-to-char", "bad-user-value"]),
             "index": st.integers(0, 20), "offset": st.integers(0, 8),
-            "text": st.sampled_from(["~", ".bak", "0", "x"])}), max_size=2))
+            "text": st.sampled_from(["~", ".bak", "0", "x", ".gz", ".zip",
+                                     ".bz2", ".xz"])}), max_size=2))
         periods.append({"s": s, "e": e, "attrs": attrs, "handler": hplan,
                         "single": draw(st.booleans()), "mutations": muts,
                         "late": draw(st.integers(0, 3)) == 0})
